@@ -95,11 +95,60 @@ class CFG:
                     if keep:
                         self.folded.append((i, val))
                         ss = keep
+            if t["k"] == "switch" and t["on"][0] in ("cp", "mv") and len(t["on"][1]) == 1:
+                # literal-variant folding: `return Err(e)?` / `Err(e)?` — `?` applied to a value built in place as `Err(..)` / `None`
+                # always takes the residual (Break) side; the Continue side is not a path of the program
+                lit = self._literal_variant(b, t["on"][1][0])
+                if lit is not None:
+                    keep = [(d, v) for d, v in ss if v == lit]
+                    if keep:
+                        self.folded.append((i, "variant#" + lit))
+                        ss = keep
             self.succ[i] = ss
         for i, ss in self.succ.items():
             for s, _ in ss:
                 self.pred[s].append(i)
         self._dom = None
+
+    def _defs(self):
+        if getattr(self, "_defmap", None) is None:
+            dm = {}
+            for b in self.body.blocks:
+                for st in b["stmts"]:
+                    if len(st["d"]) == 1:
+                        dm.setdefault(st["d"][0], []).append(("s", st["rv"]))
+                    elif st["d"]:
+                        dm.setdefault(st["d"][0], []).append(("p", None))      # a write through a projection
+                tt = b["term"]
+                if tt["k"] == "call" and tt.get("d"):
+                    dm.setdefault(tt["d"][0], []).append(("c", tt))
+            self._defmap = dm
+        return self._defmap
+
+    def _literal_variant(self, blk, l):
+        """switch value ("0"/"1") that a switch on local `l` (= discriminant of a `Try::branch` result) must take because the operand of
+        that `branch` is, by its single definition, an `Err(..)` / `None` aggregate; else None."""
+        disc = [st["rv"] for st in blk["stmts"] if st["d"] == [l]]
+        if len(disc) != 1 or disc[0]["k"] != "discr" or len(disc[0]["p"]) != 1:
+            return None
+        dm = self._defs()
+        r = disc[0]["p"][0]
+        d = dm.get(r, [])
+        if len(d) != 1 or d[0][0] != "c":
+            return None
+        call = d[0][1]
+        cal = (call.get("callee") or "") + " " + (call.get("gen") or "")
+        if "Try>::branch" not in cal and "Try::branch" not in cal:
+            return None
+        a = call["args"][0] if call.get("args") else None
+        if not a or a[0] not in ("cp", "mv") or len(a[1]) != 1:
+            return None
+        src = dm.get(a[1][0], [])
+        if len(src) != 1 or src[0][0] != "s" or src[0][1]["k"] != "agg":
+            return None
+        if src[0][1].get("variant") in ("Err", "None"):
+            return "1"      # ControlFlow::Break
+        return None
 
     @staticmethod
     def _succ(t):
